@@ -98,10 +98,12 @@ def matrix(draw, classes=None, tscale=None):
     elif cls == "mirror":
         H = householder(draw(unit_vec()))
         R = draw(rot3()) if draw(st.booleans()) else np.eye(3)
-        s = draw(st.sampled_from([1.0, 1.0, 0.5, 3.0]))
+        # include very small and very large uniform factors: det = -s^3 spans 1e-12 .. 1e9 (tests on the
+        # determinant with an absolute epsilon only show at those ends)
+        s = draw(st.sampled_from([1.0, 1.0, 0.5, 3.0, 1e-3, 2e-3, 1e-4, 1e3]))
         M = _hom(s * (R @ H), _translation(draw, ts))
     elif cls == "neg_uniform":
-        s = -draw(_f(0.2, 5.0))
+        s = -draw(st.one_of(_f(0.2, 5.0), st.sampled_from([1e-3, 1e-4, 2.5e-3, 1e3])))
         M = _hom(s * np.eye(3), _translation(draw, ts))
     elif cls == "anisotropic":
         d = [draw(st.one_of(_f(0.1, 0.8), _f(1.25, 10.0))) for _ in range(2)] + [1.0]
